@@ -667,7 +667,14 @@ def valid_case(c):
         ts = c.get("threads")
         return isinstance(ts, list) and len(ts) >= 2 and all(isinstance(t, dict) and t.get("op") in ("enc", "dec") and valid_row(t.get("row")) for t in ts) \
             and all(isinstance(x, int) and 0 <= x < len(ts) for x in c.get("schedule", []))
-    return k in ("reserved", "refuse", "big", "deep", "glue")
+    if k == "obj":
+        return valid_row(c.get("row")) and isinstance(c.get("calls"), list) and all(x in OBJ_CALLS for x in c["calls"]) \
+            and any(x in ("a", "n") for x in c["calls"]) and c.get("obj", "tuple") in ("tuple", "dict", "decoded", "slotted", "plain", "frame", "twin", "dup") \
+            and c.get("cls") in (None, "base", "tuples_only") and not (c.get("obj") in ("dict", "frame") and c.get("cls"))
+    if k == "new":
+        return (c.get("fields") is None or (isinstance(c.get("fields"), list) and all(isinstance(f, str) for f in c["fields"]))) \
+            and isinstance(c.get("arg"), list) and len(c["arg"]) >= 2 and c["arg"][0] in ("t", "d")
+    return k in ("reserved", "refuse", "big", "deep", "glue", "input")
 
 
 # --------------------------------------------------------------------------- the oracle
@@ -1010,6 +1017,19 @@ def evaluate(ctx, cases):
             info = glue_prepare(c)
             lines.append("C01 encode " + wire.line(info["ts"], info["image"]))
             plan.append((c, first, len(lines), info))
+        elif k == "obj":
+            info = obj_run(c)
+            lines.append("C01 objseq " + wire.line(bool(info["has_dict"]), c["row"], info["ops"]))
+            plan.append((c, first, len(lines), info))
+        elif k == "new":
+            info = new_run(c)
+            if info["model"]:
+                lines.append("C01 rownew " + wire.line(c["fields"], [c["arg"][0]] + ([c["arg"][1]] if c["arg"][0] == "t" else [bool(c["arg"][1]), c["arg"][2]])))
+            if info.get("rec") is not None:
+                lines.append("C01 encode " + wire.line(int.from_bytes(info["rec"][6:14], "big"), info["expect"]))
+            plan.append((c, first, len(lines), info))
+        elif k == "input":
+            plan.append((c, first, len(lines), None))
         else:
             raise InfraError("bad case kind %r" % (k,))
     mouts = ctx.model.batch(lines)
@@ -1026,6 +1046,12 @@ def evaluate(ctx, cases):
             eval_seq(ctx, c, extra[0], extra[1], mo)
         elif k == "glue":
             eval_glue(ctx, c, extra, mo[0])
+        elif k == "obj":
+            eval_obj(ctx, c, extra, mo[0])
+        elif k == "new":
+            eval_new(ctx, c, extra, mo)
+        elif k == "input":
+            eval_input(ctx, c)
         else:
             eval_big(ctx, c, mo[0])
 
@@ -1350,9 +1376,18 @@ def eval_big(ctx, c, mo):
             else:
                 ctx.disagree(c, {"encode": err}, {"bigframe": m[0]})
             return
-        # the property does not fix the cap: a different refusal threshold is a model disagreement
+        if n <= MAX and cut == 0 and ext == 0:
+            # the limit the encoder is documented to have is 16 MiB *of payload* (the property's anchor "16 MiB cap",
+            # orso/row.py MAXIMUM_RECORD_SIZE and its message): a row of the value domain at or below it that is refused "for
+            # its size" is a row the encoder refuses -- whatever the (regenerated) model of the changed guard says
+            ctx.fail(c, "the encoder refuses a row of the value domain whose payload is within the 16 MiB limit (DataError: too large)",
+                     impl={"payload_bytes": n, "limit": MAX, "refused": err}, model=m)
+            return
+        # past the documented limit the property does not fix the cap: a different refusal threshold is a model disagreement
         if m[0] != ["err", "tooLarge"]:
             ctx.disagree(c, {"encode": "tooLarge"}, {"bigframe": m[0]})
+        if c.get("via") == "append":
+            big_append(ctx, c, item, m)
         return
     if m[0][0] != "ok":
         ctx.disagree(c, {"record_len": len(rec)}, {"bigframe": m[0]}, "the encoder emits a record the model refuses")
@@ -1385,6 +1420,508 @@ def eval_big(ctx, c, mo):
         ctx.disagree(c, {"header": rec[:6], "len": len(rec)}, {"bigframe": m[0]}, "header of a large record differs")
     elif not same_form(m[1], want):
         ctx.disagree(c, {"guards": want}, {"guards": m[1]}, "guard outcome on a large record differs")
+    if c.get("via") == "append" and cut == 0 and ext == 0:
+        big_append(ctx, c, item, m)
+
+
+def big_append(ctx, c, item, m):
+    """`DataFrame.append` sizes the new row with `Row.nbytes()` before it keeps it: that is how a frame reaches the size
+    guard of `as_bytes` (theorem `nbytes_reaches_the_guard`).  Exactly at / one below / one past the limit: a row the model
+    sizes must be kept and the frame's size must be the record's; a row the guard refuses must not be kept.  The frame is
+    outside C01: everything here is correspondence."""
+    n = c["n"]
+    ctx.hit("big-append:n-MAX=%d" % (n - MAX) if abs(n - MAX) <= 1000 else "big-append:other")
+    try:
+        from orso import DataFrame
+        from orso.exceptions import DataError
+    except BaseException as e:
+        ctx.hit("big-append:unavailable:" + _exc_name(e))
+        return
+    df = DataFrame(schema=["c0"])
+    try:
+        df.append({"c0": item})
+        got = ["ok", len(df._rows), df.nbytes()]
+    except KeyboardInterrupt:
+        raise
+    except DataError:
+        got = ["err", "tooLarge", len(df._rows)]
+    except BaseException as e:
+        got = ["err", "raises " + _exc_name(e), len(df._rows)]
+    want = ["ok", 1, m[0][2]] if m[0][0] == "ok" else ["err", m[0][1], 0]
+    ctx.hit("big-append:%s" % got[0])
+    if got != want:
+        ctx.disagree(c, {"append": got}, {"append": want}, "DataFrame.append of a row near the size limit: sized / refused differently from the model of Row.nbytes")
+
+
+# --------------------------------------------------------------------------- one row object used several times
+
+OBJ_CALLS = ("a", "n", "map", "dict", "vals", "keys", "get", "json", "hash", "iter", "fb", "cmp")
+
+
+def obj_touch(obj, call):
+    """The members of a row object other than as_bytes / nbytes: caches of their own (`as_map` is a cached_property), views.
+    Their outcome is not judged here (not C01's); what matters is that they ran between two `as_bytes`."""
+    try:
+        if call == "map":
+            obj.as_map
+        elif call == "dict":
+            obj.as_dict
+        elif call == "vals":
+            obj.values
+        elif call == "keys":
+            obj.keys()
+        elif call == "get":
+            obj.get("c0")
+        elif call == "json":
+            obj.as_json
+        elif call == "hash":
+            hash(obj)
+        elif call == "iter":
+            list(obj)
+        elif call == "cmp":
+            obj == tuple(obj)
+        return "ok"
+    except KeyboardInterrupt:
+        raise
+    except BaseException as e:
+        return _exc_name(e)
+
+
+def obj_run(c):
+    """Run the calls of an `obj` case on ONE row object.  -> {has_dict, ops (for the model), outs (per a/n call), recs, touched}.
+    `obj: twin` = an instance of a *second* class made by `create_class` for the same fields (with the other `tuples_only`),
+    used while an instance of the first one is alive and has been serialised: classes for equal field lists must not share
+    anything a record depends on."""
+    try:
+        from orso.exceptions import DataError
+    except BaseException:
+        DataError = ()
+    info = {"has_dict": True, "ops": [], "outs": [], "touched": [], "noobj": None, "fb": []}
+    row = c["row"]
+    try:
+        if c.get("obj") == "twin":
+            from orso.row import Row
+
+            fields = ["c%d" % i for i in range(len(row))]
+            values = tuple(to_py(x, c.get("tuples", False)) for x in row)
+            first = Row.create_class(fields, tuples_only=(c.get("cls") != "tuples_only"))(values)
+            first.as_bytes
+            obj = Row.create_class(fields, tuples_only=(c.get("cls") == "tuples_only"))(values)
+            info["keepalive"] = first
+        elif c.get("obj") == "dup":
+            # a class whose field names repeat (a frame with two columns of one name): the members that go through the field
+            # names (`as_map`, `as_dict`) see fewer entries than the row has items -- `as_bytes` must not
+            from orso.row import Row
+
+            values = tuple(to_py(x, c.get("tuples", False)) for x in row)
+            key = ("dup", len(row), c.get("cls"))
+            if key not in _R:
+                _R[key] = Row.create_class(["c"] * len(row), tuples_only=(c.get("cls") == "tuples_only"))
+            obj = _R[key](values)
+        else:
+            obj = make_row_object(c)
+    except KeyboardInterrupt:
+        raise
+    except BaseException as e:
+        info["noobj"] = _exc_name(e)
+        return info
+    info["has_dict"] = hasattr(obj, "__dict__")
+    last = None
+    for call in c["calls"]:
+        if call == "a":
+            try:
+                rec = obj.as_bytes
+                if isinstance(rec, bytes):
+                    out = ["ok", rec]
+                    last = rec
+                else:
+                    out = ["err", "returns %s instead of bytes" % type(rec).__name__]
+            except KeyboardInterrupt:
+                raise
+            except DataError:
+                out = ["err", "tooLarge"]
+            except TypeError:
+                out = ["err", "codec"]
+            except OverflowError:
+                out = ["err", "overflow"]
+            except BaseException as e:
+                out = ["err", "raises " + _exc_name(e)]
+            info["ops"].append(["a", int.from_bytes(out[1][6:14], "big") if out[0] == "ok" and len(out[1]) >= 14 else 0])
+            info["outs"].append(out)
+        elif call == "n":
+            try:
+                v = obj.nbytes()
+                out = ["ok", v if (v is None or (isinstance(v, int) and not isinstance(v, bool))) else Foreign(v)]
+            except KeyboardInterrupt:
+                raise
+            except DataError:
+                out = ["err", "tooLarge"]
+            except TypeError:
+                out = ["err", "codec"]
+            except OverflowError:
+                out = ["err", "overflow"]
+            except BaseException as e:
+                out = ["err", "raises " + _exc_name(e)]
+            info["ops"].append(["n", 0])
+            info["outs"].append(out)
+        elif call == "fb":
+            # the last record decoded once more (the same `bytes` object handed to the decoder a second, third time)
+            if last is not None:
+                info["fb"].append((last, impl_decode(len(row), last, c.get("cls"))))
+        else:
+            info["touched"].append((call, obj_touch(obj, call)))
+    return info
+
+
+def eval_obj(ctx, c, info, mo):
+    ctx.case(c, len(c["calls"]) >= 2)
+    ctx.hit("kind:obj")
+    ctx.hit("obj-calls:%d" % min(len(c["calls"]), 12))
+    ctx.hit("obj-object:%s/%s" % (c.get("cls") or "factory", c.get("obj", "tuple")))
+    for call, res in info["touched"]:
+        ctx.hit("obj-touch:%s->%s" % (call, res))
+    if info["noobj"] is not None:
+        ctx.hit("obj:no-object:" + info["noobj"])
+        return
+    m = model_forms(mo, "objseq")[0]
+    row = c["row"]
+    names = [x for x in c["calls"] if x in ("a", "n")]
+    if len(m) != len(info["outs"]):
+        raise InfraError("objseq: %d answers for %d calls" % (len(m), len(info["outs"])))
+    before = []
+    k = 0
+    for call in c["calls"]:
+        if call not in ("a", "n"):
+            before.append(call)
+            continue
+        out, mout = info["outs"][k], m[k]
+        k += 1
+        if call == "a":
+            # oracle: every record one object emits is a record the encoder emits -- the decoder accepts it, the row is equal
+            if out[0] == "ok":
+                g, exc = impl_decode(len(row), out[1], c.get("cls"))
+                cl = judge_emitted(g, exc, row)
+                if cl is not None:
+                    _fail_obj(ctx, c, cl[0] + " [record of one row object after: %s]" % (", ".join(before) or "nothing"),
+                              {"record": out[1], "got": cl[1], "calls_before": list(before)}, mout)
+                    return
+            elif mout[0] == "ok":
+                _fail_obj(ctx, c, "the encoder refuses a row of the value domain (%s) [row object used before: %s]" % (out[1], ", ".join(before) or "nothing"),
+                          {"calls_before": list(before), "outcome": out}, mout)
+                return
+            if not wire.same(out, mout):
+                ctx.disagree(c, {"call": len(before), "as_bytes": out}, {"as_bytes": mout}, "a record of a row object used several times differs from the model's")
+                return
+        else:
+            if not wire.same(out, mout) and not (isinstance(out[1], Foreign)):
+                ctx.disagree(c, {"call": len(before), "nbytes": out}, {"nbytes": mout}, "Row.nbytes on a row object used several times differs from the model")
+                return
+        before.append(call)
+    for rec, (g, exc) in info["fb"]:
+        cl = judge_emitted(g, exc, row)
+        if cl is not None:
+            _fail_obj(ctx, c, cl[0] + " [the same buffer decoded again]", {"record": rec, "got": cl[1]}, None)
+            return
+
+
+def _fail_obj(ctx, c, clause, impl, model):
+    """Report an `obj` failure with the shortest call list (and the empty row if that is enough) that fails the same way."""
+    key = ("obj", _norm(clause).split(" [")[0])
+    if key in _REPORTED and not ctx.replaying:
+        ctx.hit("obj:further-failure-of-a-reported-kind")
+        return
+    _REPORTED.add(key)
+    def fails(case):
+        if not valid_case(case):
+            return False
+        hold = []
+
+        class _C:
+            def fail(self, cs, cl, **kw):
+                hold.append(cl)
+
+            def disagree(self, *a, **k):
+                pass
+
+            def case(self, *a, **k):
+                pass
+
+            def hit(self, *a, **k):
+                pass
+
+        keep = _RECORD_HISTORY[0]
+        _RECORD_HISTORY[0] = False
+        try:
+            info = obj_run(case)
+            if info["noobj"] is not None:
+                return False
+            # the model's answer is not needed to re-judge the oracle: give every call "ok"
+            fake = [["ok", o[1]] if o[0] == "ok" else ["err", o[1]] for o in info["outs"]]
+            _eval_obj_oracle(_C(), case, info, fake)
+        finally:
+            _RECORD_HISTORY[0] = keep
+        return bool(hold) and _norm(hold[0]).split(" [")[0] == _norm(clause).split(" [")[0]
+
+    best = dict(c)
+    try:
+        calls = list(best["calls"])
+        i = 0
+        while i < len(calls):
+            trial = calls[:i] + calls[i + 1:]
+            t = dict(best, calls=trial)
+            if trial and fails(t):
+                calls = trial
+                best = t
+            else:
+                i += 1
+        for cand in ([], [0], [0, 1], [0, 1, 2]):
+            if len(cand) < len(best["row"]) and fails(dict(best, row=cand)):
+                best = dict(best, row=cand)
+                break
+        else:
+            row, i, trials = list(best["row"]), 0, 0
+            while i < len(row) and trials < 40:
+                trials += 1
+                trial = row[:i] + row[i + 1:]
+                if fails(dict(best, row=trial)):
+                    row = trial
+                    best = dict(best, row=row)
+                else:
+                    i += 1
+    except KeyboardInterrupt:
+        raise
+    except BaseException:
+        best = dict(c)
+    ctx.fail(best, clause, impl=impl, model=model)
+
+
+def _eval_obj_oracle(ctx, c, info, m):
+    """the oracle part of eval_obj alone (used by the minimiser)"""
+    row = c["row"]
+    before = []
+    k = 0
+    for call in c["calls"]:
+        if call not in ("a", "n"):
+            before.append(call)
+            continue
+        out = info["outs"][k]
+        k += 1
+        if call == "a":
+            if out[0] == "ok":
+                g, exc = impl_decode(len(row), out[1], c.get("cls"))
+                cl = judge_emitted(g, exc, row)
+                if cl is not None:
+                    ctx.fail(c, cl[0])
+                    return
+            else:
+                ctx.fail(c, "the encoder refuses a row of the value domain (%s)" % out[1])
+                return
+        before.append(call)
+    for rec, (g, exc) in info["fb"]:
+        cl = judge_emitted(g, exc, row)
+        if cl is not None:
+            ctx.fail(c, cl[0])
+            return
+
+
+def obj_cases(ctx, rng):
+    """Sequences of calls on one row object: fixed schedules over every kind of object, and random ones."""
+    out = []
+    fixed = (["a", "a"], ["n", "a"], ["a", "n", "a"], ["n", "n", "a", "n"], ["map", "a"], ["dict", "map", "a", "a"], ["a", "map", "dict", "json", "a"],
+             ["hash", "a", "vals", "keys", "get", "iter", "cmp", "a"], ["a", "fb", "fb", "a", "fb"], ["n", "map", "a", "fb", "n", "a"])
+    rows = ([], [0], [None, True, -1, 2.5, "é", b"\x00", [1, [2]], {"k": [None]}], ["x" * 300], [2**64 - 1, -(2**63)])
+    kinds = [(None, "tuple"), (None, "dict"), (None, "decoded"), (None, "frame"), (None, "plain"), (None, "slotted"), (None, "twin"), (None, "dup"), ("tuples_only", "dup"),
+             ("tuples_only", "tuple"), ("tuples_only", "decoded"), ("tuples_only", "twin"), ("base", "tuple"), ("base", "decoded")]
+    for i, calls in enumerate(fixed):
+        for j, (cls, how) in enumerate(kinds):
+            row = rows[(i + j) % len(rows)]
+            case = {"kind": "obj", "row": row, "calls": list(calls), "obj": how}
+            if cls:
+                case["cls"] = cls
+            out.append(case)
+    for _ in range(ctx.scale(60, 1500)):
+        cls, how = kinds[rng.randrange(len(kinds))]
+        calls = [OBJ_CALLS[rng.randrange(len(OBJ_CALLS))] if rng.random() < 0.5 else ("a" if rng.random() < 0.6 else "n") for _ in range(rng.randrange(2, 9))]
+        if not any(x in ("a", "n") for x in calls):
+            calls.append("a")
+        row = random_row(rng)["row"] if rng.random() < 0.7 else rows[rng.randrange(len(rows))]
+        if not valid_row(row):
+            row = [0]
+        case = {"kind": "obj", "row": row, "calls": calls, "obj": how}
+        if cls:
+            case["cls"] = cls
+        out.append(case)
+    return out
+
+
+# --------------------------------------------------------------------------- Row.__new__: a row from a tuple, from a dictionary
+
+
+class _OD(dict):
+    """a subclass of dict (what `type(data) is not dict` is there for)"""
+
+
+def new_run(c):
+    """`cls(arg)` on the real class, then `as_bytes` / `from_bytes` of the object.  -> {built: ["ok", items] | ["err", name],
+    model: is the case inside the model of Row.__new__ (text keys, a class whose __new__ is Row's), expect, rec, back}"""
+    from orso.row import Row
+
+    fields, arg = c["fields"], c["arg"]
+    info = {"model": c.get("cls") != "tuples_only", "rec": None, "expect": None}
+    try:
+        R = Row if fields is None else Row.create_class(fields, tuples_only=(c.get("cls") == "tuples_only"))
+        if arg[0] == "t":
+            data = tuple(to_py(x, False) for x in arg[1])
+        else:
+            data = {k: to_py(v, False) for k, v in arg[2].items()}
+            if not arg[1]:
+                data = _OD(data)
+        obj = R(data)
+        info["built"] = ["ok", [canon(x) for x in obj]]
+        info["obj"] = obj
+    except KeyboardInterrupt:
+        raise
+    except BaseException as e:
+        info["built"] = ["err", _exc_name(e).split(".")[-1]]
+        return info
+    # what the constructor is specified to build (docstrings of Row.__new__ / extract_dict_columns): the tuple's items; for a
+    # dictionary one value per field in field order, None for a missing field
+    if arg[0] == "t":
+        expect = list(arg[1])
+    elif c.get("cls") == "tuples_only":
+        expect = None
+    else:
+        expect = [arg[2].get(f) for f in fields]
+    info["expect"] = expect
+    # the property is about the row object at hand: what comes back must be *its* items (that the constructor built the row it
+    # is specified to build is correspondence with the model of Row.__new__, not C01's oracle)
+    own = info["built"][1]
+    if expect is not None and valid_row(expect) and valid_row(own):
+        try:
+            rec = obj.as_bytes
+            if isinstance(rec, bytes):
+                info["rec"] = rec
+                info["back"] = impl_decode(len(own), rec, None if fields is not None else "base")
+            else:
+                info["enc_err"] = "returns %s instead of bytes" % type(rec).__name__
+        except KeyboardInterrupt:
+            raise
+        except BaseException as e:
+            info["enc_err"] = "raises " + _exc_name(e)
+    return info
+
+
+def eval_new(ctx, c, info, mo):
+    ctx.case(c, True)
+    ctx.hit("kind:new")
+    ctx.hit("new:%s/%s/%s" % ("base" if c["fields"] is None else (c.get("cls") or "factory"), c["arg"][0] if c["arg"][0] == "t" else ("dict" if c["arg"][1] else "dict-subclass"),
+                              info["built"][0] if info["built"][0] == "ok" else info["built"][1]))
+    mo = list(mo)
+    if info["model"]:
+        m = model_forms(mo.pop(0), "rownew")[0]
+        if not wire.same(info["built"], m):
+            ctx.disagree(c, {"row": info["built"]}, {"row": m}, "cls(data) builds another row than the model of Row.__new__")
+            return
+    if info.get("enc_err"):
+        ctx.fail(c, "the encoder refuses a row of the value domain (%s) [row built by cls(%s)]" % (info["enc_err"], "tuple" if c["arg"][0] == "t" else "dict"),
+                 impl=info["enc_err"], model=None)
+        return
+    if info.get("rec") is not None:
+        g, exc = info["back"]
+        cl = judge_emitted(g, exc, info["built"][1])
+        if cl is not None:
+            ctx.fail(c, cl[0] + " [row built by cls(%s)]" % ("tuple" if c["arg"][0] == "t" else "dict"), impl={"record": info["rec"], "got": cl[1], "built": info["built"]},
+                     model={"row": info["expect"]})
+            return
+        me = model_forms(mo.pop(0), "encode")[0]
+        if me[0] != "ok" or me[1] != info["rec"]:
+            ctx.disagree(c, {"record": info["rec"]}, {"encode": me}, "the record of a row built by cls(data) differs from the model's record of the specified row")
+
+
+def new_cases(rng):
+    out = []
+    vals = [None, True, 0, -1, 2**63, 1.5, float("nan"), "é", b"\x01", [1, [2]], {"k": 1}]
+    for fields in (["a"], ["a", "b"], ["b", "a", "c"], ["a", "a"], []):
+        full = {f: vals[(i * 3 + len(fields)) % len(vals)] for i, f in enumerate(fields)}
+        rev = dict(reversed(list(full.items())))
+        for exact in (True, False):
+            out.append({"kind": "new", "fields": fields, "arg": ["d", exact, full]})
+            out.append({"kind": "new", "fields": fields, "arg": ["d", exact, rev]})
+            out.append({"kind": "new", "fields": fields, "arg": ["d", exact, dict(list(full.items())[1:])]})  # a missing field
+            out.append({"kind": "new", "fields": fields, "arg": ["d", exact, dict(full, zz=7, A="upper")]})  # surplus keys
+            out.append({"kind": "new", "fields": fields, "arg": ["d", exact, {}]})
+        out.append({"kind": "new", "fields": fields, "arg": ["t", [vals[i % len(vals)] for i in range(len(fields))]]})
+        out.append({"kind": "new", "fields": fields, "arg": ["t", [1, 2, 3, 4]]})  # more items than fields: a tuple is kept as it is
+        out.append({"kind": "new", "fields": fields, "cls": "tuples_only", "arg": ["t", [vals[i % len(vals)] for i in range(len(fields))]]})
+    out.append({"kind": "new", "fields": None, "arg": ["t", [1, "a"]]})
+    out.append({"kind": "new", "fields": None, "arg": ["d", True, {"a": 1}]})
+    out.append({"kind": "new", "fields": None, "arg": ["d", False, {}]})
+    for _ in range(40):
+        n = rng.randrange(0, 6)
+        fields = ["f%d" % rng.randrange(0, 7) for _ in range(n)]
+        d = {"f%d" % rng.randrange(0, 9): vals[rng.randrange(len(vals))] for _ in range(rng.randrange(0, 8))}
+        out.append({"kind": "new", "fields": fields, "arg": ["d", rng.random() < 0.7, d]})
+    return out
+
+
+# --------------------------------------------------------------------------- what is handed to from_bytes: other buffer types
+
+
+def eval_input(ctx, c):
+    """`Row.from_bytes` is specified for `bytes`.  Handed the record in another buffer type (bytearray, memoryview, a subclass
+    of bytes, a slice of a larger buffer) it may refuse the type -- but if it answers, it must answer like it does for the
+    `bytes` record: the emitted record decodes to the row, a torn / extended one is not decoded into a row."""
+    ctx.case(c, True)
+    ctx.hit("kind:input")
+    row = c["row"]
+    keep = _RECORD_HISTORY[0]
+    _RECORD_HISTORY[0] = False
+    try:
+        rec, err = impl_encode({"row": row})
+    finally:
+        _RECORD_HISTORY[0] = keep
+    if rec is None:
+        return
+
+    class B(bytes):
+        pass
+
+    big = b"\xff" * 7 + rec + b"\x10\x00" * 9
+    forms = {"bytearray": bytearray(rec), "memoryview": memoryview(rec), "bytes-subclass": B(rec), "slice-of-larger": big[7:7 + len(rec)],
+             "memoryview-slice": memoryview(big)[7:7 + len(rec)], "larger-than-declared": big[7:], "torn-bytearray": bytearray(rec[:-1]),
+             "torn-subclass": B(rec[:-1]), "larger-than-declared-bytearray": bytearray(big[7:]), "larger-than-declared-memoryview": memoryview(big)[7:],
+             "larger-than-declared-subclass": B(rec + b"\n")}
+    for name, data in forms.items():
+        g, exc = impl_decode(len(row), data)
+        ctx.hit("input:%s->%s" % (name, outcome_label(g) if exc in (None, "DataError") else exc))
+        whole = name in ("bytearray", "memoryview", "bytes-subclass", "slice-of-larger", "memoryview-slice")
+        if g[0] == "ok":
+            back = decoded_values(g)
+            if not whole:
+                ctx.fail(c, "%s record is accepted and decoded into a row [buffer handed over as %s]" % ("torn" if "torn" in name else "ext", name), impl=g, model=None)
+                return
+            if not wire.same(back, row):
+                ctx.fail(c, "round trip returns a different row [record handed over as %s]" % name, impl=back, model=None)
+                return
+        elif g[0] == "err" and exc == "TypeError":
+            continue  # the buffer type is refused: nothing is decoded
+        elif g[0] == "err" and exc == "DataError" and not whole:
+            continue
+        elif isinstance(data, bytes) and whole:
+            # a bytes object (subclass / slice) holding the emitted record is a record the encoder emitted
+            cl = judge_emitted(g, exc, row)
+            if cl is not None:
+                ctx.fail(c, cl[0] + " [record handed over as %s]" % name, impl=g, model=None)
+                return
+        elif isinstance(data, bytes) and not whole:
+            cl = judge_altered("torn" if "torn" in name else "ext", g, exc)
+            if cl is not None:
+                ctx.fail(c, cl[0] + " [buffer handed over as %s]" % name, impl=g, model=None)
+                return
+
+
+def input_cases():
+    return [{"kind": "input", "row": r} for r in ([], [0], [None, "é", b"\x00\x01", [1, {"k": 2.5}]], ["x" * 300])]
 
 
 # --------------------------------------------------------------------------- `default=` glue (outside the value domain)
@@ -1417,6 +1954,11 @@ GLUE = {
     "datetime:utc": (lambda: datetime.datetime(2024, 1, 2, 3, 4, 5, tzinfo=datetime.timezone.utc), "2024-01-02T03:04:05+00:00"),
     "np.datetime64:s": (lambda: __import__("numpy").datetime64("2024-01-02T03:04:05"), "2024-01-02T03:04:05"),
     "uuid": (lambda: __import__("uuid").UUID(int=5), "00000000-0000-0000-0000-000000000005"),
+    # every non-native kind at once, one level down (the `default=` callback is consulted inside containers too)
+    "nested-mix": (lambda: [__import__("decimal").Decimal("1.50"), __import__("numpy").int64(3), __import__("numpy").float64(2.5),
+                            datetime.datetime(2024, 1, 2, 3, 4, 5), datetime.datetime(2024, 1, 2, 3, 4, 5, tzinfo=datetime.timezone.utc),
+                            (1, (2,)), None, 2**64 - 1, {"k": __import__("decimal").Decimal("2")}],
+                   ["1.50", 3, 2.5, "2024-01-02T03:04:05", "2024-01-02T03:04:05+00:00", [1, [2]], None, 2**64 - 1, {"k": "2"}]),
 }
 
 
@@ -1426,12 +1968,19 @@ def glue_prepare(c):
     info = {"image": before + [image] + after, "ts": 0, "rec": None, "exc": None}
     try:
         R = row_class(len(before) + 1 + len(after))
-        rec = R(tuple(before) + (make(),) + tuple(after)).as_bytes
+        obj = R(tuple(before) + (make(),) + tuple(after))
+        rec = obj.as_bytes
         if not isinstance(rec, bytes):
             info["exc"] = "returns %s instead of bytes" % type(rec).__name__
         else:
             info["rec"] = rec
             info["ts"] = int.from_bytes(rec[6:14], "big")
+            # the same object sized and serialised again: the `default=` callback runs again on the same foreign items
+            obj.nbytes()
+            rec2 = obj.as_bytes
+            if not isinstance(rec2, bytes) or rec2[:6] + rec2[14:] != rec[:6] + rec[14:]:
+                info["rec"] = None
+                info["exc"] = "the second as_bytes of the same object gives another payload"
     except KeyboardInterrupt:
         raise
     except BaseException as e:
@@ -2222,7 +2771,8 @@ def glue_cases():
 
 
 def cap_cases(ctx):
-    big = [{"kind": "big", "n": MAX + 1}, {"kind": "big", "n": MAX}, {"kind": "big", "n": MAX - 13, "shape": "str"},
+    big = [{"kind": "big", "n": MAX + 1, "via": "append"}, {"kind": "big", "n": MAX, "via": "append"}, {"kind": "big", "n": MAX - 1, "via": "append"},
+           {"kind": "big", "n": MAX - 13, "shape": "str"},
            {"kind": "big", "n": MAX - 14}, {"kind": "big", "n": 70000}, {"kind": "big", "n": 70000, "cut": 3},
            {"kind": "big", "n": 70000, "ext": 2}, {"kind": "big", "n": 65536 + 14}, {"kind": "big", "n": 65536 - 14, "shape": "str"},
            {"kind": "big", "n": 8 * 1024 * 1024}]  # 0x800000: the third length byte crosses 0x7f/0x80
@@ -2260,6 +2810,8 @@ def run(ctx):
              "for each, every tear point, the 36 guarded bit flips, every other version nibble, 4 extensions" % (len(SCALARS) + len(small_containers()), n_ex))
     evaluate(ctx, list(unguarded_cases()) + list(float32_cases()) + list(family_cases()) + reserved_cases(rng) + refuse_cases() + glue_cases())
     evaluate(ctx, seq_cases(rng, ctx.scale(60, 1500)))
+    evaluate(ctx, obj_cases(ctx, rng))
+    evaluate(ctx, new_cases(rng) + input_cases())
     conc_phase(ctx)
     evaluate(ctx, boundary_cases(ctx))
     evaluate(ctx, shape_cases(ctx))
